@@ -2,7 +2,7 @@
 (* Case tables for C05: the per-axis exhaustive family (1-d arrays) and a        *)
 (* multi-axis family over a menu of parts with the ellipsis in every position.   *)
 EXTENDS Slice, Json, IOUtils, SequencesExt, TLC
-CONSTANTS N, B, D, E
+CONSTANTS N, B, D, E, BIG
 PerSrc(S, F(_)) == LET ss == SetToSeq(S) IN FlattenSeq([i \in DOMAIN ss |-> SetToSeq(F(ss[i]))])
 Opt(S) == {<<>>} \cup {<<v>> : v \in S}
 Case(s, parts) == [op |-> "slice", shapes |-> <<s>>, args |-> [parts |-> parts]]
@@ -12,8 +12,21 @@ Axis(n) == {Case(<<n>>, <<Sl(a, b, c)>>) : a \in Opt((-(n + B))..(n + B)), b \in
 Menu == {[k |-> "i", i |-> v] : v \in {-1, 0, 1}} \cup {[k |-> "e"]}
         \cup {Sl(<<>>, <<>>, <<>>), Sl(<<>>, <<>>, <<-1>>), Sl(<<>>, <<>>, <<2>>), Sl(<<1>>, <<2>>, <<1>>), Sl(<<0>>, <<-1>>, <<1>>), Sl(<<-1>>, <<0>>, <<-1>>), Sl(<<-2>>, <<2>>, <<1>>)}
 Multi(s) == {Case(s, ps) : ps \in UNION {[1..m -> Menu] : m \in 1..Min2(Len(s) + 1, 3)}}
+\* index-math scope: big extents, bounds around 0, n/2, n of either sign; "at" lists the first, middle and last result index
+Around(m) == UNION {{c - B, c - 1, c, c + 1, c + B} : c \in {0, m \div 2, m}}
+BigBounds(m) == Around(m) \cup {-x : x \in Around(m)}
+AtOf(shape, parts) == LET r == SliceShape(shape, parts) IN
+    IF \E q \in 1..Len(r) : r[q] = 0 THEN <<>>
+    ELSE <<[q \in 1..Len(r) |-> 0], [q \in 1..Len(r) |-> r[q] \div 2], [q \in 1..Len(r) |-> r[q] - 1]>>
+ICase(s, parts) == [op |-> "slice_index", shapes |-> <<s>>, args |-> [parts |-> parts, at |-> AtOf(s, parts)]]
+BigAxis(n) == {ICase(<<n>>, <<Sl(a, b, c)>>) : a \in Opt(BigBounds(n)), b \in Opt(BigBounds(n)), c \in Opt((-3..3) \ {0})}
+BigMenu(n) == {[k |-> "i", i |-> -1], [k |-> "i", i |-> 1], [k |-> "e"], Sl(<<>>, <<>>, <<>>), Sl(<<>>, <<>>, <<-1>>), Sl(<<>>, <<>>, <<3>>),
+               Sl(<<1>>, <<-1>>, <<2>>), Sl(<<-2>>, <<0>>, <<-3>>)}
+BigMulti(n) == UNION {{ICase(s, ps) : ps \in {x \in UNION {[1..m -> BigMenu(n)] : m \in 1..3} : SpecOk(s, x)}} : s \in {<<n, 2>>, <<2, n>>, <<2, n, 3>>}}
 Family(f) == CASE f = "axis" -> PerSrc(1..N, Axis)
                [] f = "multi" -> PerSrc(ShapesOf(1, D, 2..E), Multi)
+               [] f = "bigaxis" -> PerSrc(BIG, BigAxis)
+               [] f = "bigmulti" -> PerSrc(BIG, BigMulti)
 ASSUME ndJsonSerialize(IOEnv.OUT, Family(IOEnv.FAM))
 VARIABLE z
 GInit == z = 0
